@@ -499,13 +499,17 @@ func cmdCheck(args []string) int {
 		case r.timedOut:
 			fmt.Fprintf(os.Stderr, "vsim: worker %s/%d exceeded its watchdog; output tail:\n%s\n", r.variant, r.idx, tail(r.out, 30))
 			infra = true
-		case r.exit != 0 && r.viol != nil && strings.Contains(r.out, "[rapid] flaky test, can not reproduce") && !strings.HasPrefix(r.viol.Key, "C18/race:") && !strings.HasPrefix(r.viol.Key, "C18/deadlock:"):
+		case r.exit != 0 && r.viol != nil && strings.Contains(r.out, "[rapid] flaky test, can not reproduce") && !strings.HasPrefix(r.viol.Key, "C18/race:") && !strings.HasPrefix(r.viol.Key, "C18/deadlock:") && !seedDeterministic(p, b, r, *tier):
 			// (a ThreadSanitizer report with frames inside the tink tree is physical evidence of two unsynchronised
 			// accesses and stays a violation even if — e.g. with sync.Pool involved — it does not recur on re-execution;
 			// after an established deadlock the process is left with locks held, so the world skips every later run of
 			// that process, including rapid's confirming one: the replay re-runs the worker from its seed in a fresh process)
-			// the failing run did not fail again when rapid re-executed the very same draws in the same process: one seed
-			// must be one execution, so this is a nondeterminism alarm (infrastructure), never a violation
+			// the failing run did not fail again when rapid re-executed the very same draws in the same process, AND a
+			// fresh process given the same worker seed did not arrive at the same failure either: one seed must be one
+			// execution, so this is a nondeterminism alarm (infrastructure), never a violation. (A failure that depends on
+			// state the library keeps across calls — a pool, a cache, a counter — does not repeat inside the process but is
+			// still a function of the seed: seedDeterministic re-runs the worker from its seed, and such a failure is
+			// reported, with a replay that re-runs the worker.)
 			fmt.Fprintf(os.Stderr, "vsim: worker %s/%d: a failure (%s) did not repeat on immediate re-execution of the same draws — nondeterminism outside the simulator's control; not reported as a violation. Output tail:\n%s\n", r.variant, r.idx, r.viol.Key, tail(r.out, 25))
 			infra = true
 		case r.exit != 0 && r.viol != nil:
@@ -871,6 +875,24 @@ func cmdReplay(args []string) int {
 	}
 	fmt.Printf("VIOLATION property=%s replay=%s\n", rf.Property, args[0])
 	return 1
+}
+
+// seedDeterministic re-runs a worker whose failure rapid could not repeat in-process, in a fresh process from the same
+// seed and budget, and says whether it fails again under the same violation key.
+func seedDeterministic(p *propCfg, b *built, r workerResult, tier string) bool {
+	var v *variant
+	for i := range p.Variants {
+		if p.Variants[i].Name == r.variant {
+			v = &p.Variants[i]
+		}
+	}
+	if v == nil || r.viol == nil {
+		return false
+	}
+	r2 := runWorker(p, *v, b.bins[v.Name], filepath.Join(b.dir, "confirm"), r.idx, r.seed, r.checks, tier, 30*time.Minute, nil, nil)
+	same := r2.exit != 0 && r2.viol != nil && r2.viol.Key == r.viol.Key
+	fmt.Fprintf(os.Stderr, "vsim: worker %s/%d: %s did not repeat in-process; fresh process from the same seed: repeats=%v\n", r.variant, r.idx, r.viol.Key, same)
+	return same
 }
 
 // ---------------------------------------------------------------------------
